@@ -34,11 +34,11 @@ var plainWords = []string{"ab", "cde", "fghi", "jk", "lmnop", "q", "rst", "uvwx"
 type dg struct {
 	r      *rand.Rand
 	gotext bool
-	ids   []string
-	nid   int
-	css   []string
-	body  []string
-	broke int // out-of-flow boxes taller than the page emitted so far
+	ids    []string
+	nid    int
+	css    []string
+	body   []string
+	broke  int // out-of-flow boxes taller than the page emitted so far
 }
 
 func (g *dg) id() string {
@@ -67,6 +67,33 @@ func (g *dg) someID() string {
 		return "missing" + fmt.Sprint(g.r.Intn(3))
 	}
 	return gen.Pick(g.r, g.ids)
+}
+
+// hyphenPara emits a justified paragraph of long words in one of four languages.
+func (g *dg) hyphenPara() {
+	r := g.r
+	lang := gen.Pick(r, []string{"en", "fr", "de", "nl"})
+	var p []string
+	for i := 0; i < 3+r.Intn(5); i++ {
+		w := gen.Pick(r, hyphWords[lang])
+		p = append(p, w)
+		if r.Intn(3) == 0 {
+			p = append(p, gen.Pick(r, plainWords))
+		}
+	}
+	cls := "hy"
+	if g.gotext {
+		// go-text engine + hyphens:auto panics in text.(*FontConfigurationGotext).splitFirstLine (slice
+		// bounds out of range) on most of these paragraphs: a crash, C01's domain (witness
+		// findings/C15/crash-gotext-hyphens-auto.json); the go-text documents hyphenate manually
+		cls = "hm"
+		for i := range p {
+			if rs := []rune(p[i]); len(rs) > 8 {
+				p[i] = string(rs[:4]) + "\u00ad" + string(rs[4:8]) + "\u00ad" + string(rs[8:])
+			}
+		}
+	}
+	g.body = append(g.body, fmt.Sprintf(`<p lang="%s" class="%s" style="width:%dpx">%s</p>`, lang, cls, 60+10*r.Intn(8), strings.Join(p, " ")))
 }
 
 // section emits one block exercising one feature.
@@ -130,28 +157,7 @@ func (g *dg) section() {
 		}
 		g.body = append(g.body, fmt.Sprintf(`<ol class="%s" start="%d">%s</ol>`, gen.Pick(r, []string{"cs1", "cs2", "cs3", "cs4", "roman", "greek"}), 1+r.Intn(30), sb.String()))
 	case 7: // hyphenation
-		lang := gen.Pick(r, []string{"en", "fr", "de", "nl"})
-		var p []string
-		for i := 0; i < 3+r.Intn(5); i++ {
-			w := gen.Pick(r, hyphWords[lang])
-			p = append(p, w)
-			if r.Intn(3) == 0 {
-				p = append(p, gen.Pick(r, plainWords))
-			}
-		}
-		cls := "hy"
-		if g.gotext {
-			// go-text engine + hyphens:auto panics in text.(*FontConfigurationGotext).splitFirstLine (slice
-			// bounds out of range) on most of these paragraphs: a crash, C01's domain (witness
-			// findings/C15/crash-gotext-hyphens-auto.json); the go-text documents hyphenate manually
-			cls = "hm"
-			for i := range p {
-				if len(p[i]) > 8 {
-					p[i] = p[i][:4] + "\u00ad" + p[i][4:8] + "\u00ad" + p[i][8:]
-				}
-			}
-		}
-		g.body = append(g.body, fmt.Sprintf(`<p lang="%s" class="%s" style="width:%dpx">%s</p>`, lang, cls, 60+10*r.Intn(8), strings.Join(p, " ")))
+		g.hyphenPara()
 	case 8: // images
 		src := gen.Pick(r, []string{pngDot, svgData, "mem://doc/pic.svg", "mem://doc/pic.svg", "mem://doc/missing.png"})
 		g.body = append(g.body, fmt.Sprintf(`<p>%s <img src="%s" style="width:%dpx; height:%dpx" id="%s"> %s</p>`, g.words(1), src, 5+5*r.Intn(5), 5+5*r.Intn(4), g.id(), g.words(1)))
@@ -196,8 +202,16 @@ func (g *dg) section() {
 }
 
 // biasedDoc builds one document.
-func biasedDoc(r *rand.Rand) gen.Doc {
+func biasedDoc(r *rand.Rand) gen.Doc { return buildDoc(r, false) }
+
+// smallDoc builds a document of one to three sections (cold-start cases), hyphenating in 3 of 4.
+func smallDoc(r *rand.Rand) gen.Doc { return buildDoc(r, true) }
+
+func buildDoc(r *rand.Rand, small bool) gen.Doc {
 	g := &dg{r: r, gotext: r.Intn(4) == 0}
+	if small {
+		g.gotext = r.Intn(8) == 0
+	}
 	pw := 150 + 10*r.Intn(16)
 	ph := 100 + 10*r.Intn(12)
 	font := gen.Pick(r, []string{"10px/1.2 Ahem", "8px/1 Ahem", "10px/1.5 weasyprint", "12px Ahem", "10px ff1, Ahem"})
@@ -244,7 +258,20 @@ func biasedDoc(r *rand.Rand) gen.Doc {
 		g.css = append(g.css, gen.Pick(r, []string{`p:nth-child(odd) { color: red } p::after { content: "" }`, `*::before { color: green }`, `div > p::first-line { color: gray }`, `li::marker { color: red }`}))
 	}
 	n := 4 + r.Intn(9)
+	hyAt := -1
+	if small {
+		n = 1 + r.Intn(3)
+		if r.Intn(4) != 0 {
+			hyAt = r.Intn(n)
+		}
+	} else if r.Intn(2) == 0 {
+		hyAt = r.Intn(n) // half of the documents hyphenate for sure (shared dictionary cache)
+	}
 	for i := 0; i < n; i++ {
+		if i == hyAt {
+			g.hyphenPara()
+			continue
+		}
 		g.section()
 	}
 	meta := ""
@@ -272,4 +299,3 @@ func biasedDoc(r *rand.Rand) gen.Doc {
 	}
 	return d
 }
-
